@@ -37,8 +37,9 @@
      last writer win and raises IndexError on an out-of-range peak index;
    * F3: a NaN score becomes cost +inf; when no all-finite assignment of size
      min(n,m) exists linear_sum_assignment raises ValueError (EInfeasible).
-     `fixed_F3 = true` models the proposed repair (proposed_fixes/C08_F3.diff):
-     NaN entries get the finite cost `big` and matches that land on them are
+     That is the PINNED tree (`fixed_F3 = false`).  `fixed_F3 = true` is the
+     CURRENT tree (/repo since fix f3ef4e3 = proposed_fixes/C08_F3.diff): NaN
+     entries get the finite cost `big` (1e6) and matches that land on them are
      discarded after the assignment. *)
 From Coq Require Import List Arith Bool ZArith QArith Qround.
 From SV Require Import C17.Toposort.
@@ -147,8 +148,8 @@ Definition edge_dsts (k : nat) (cands : list cand) : list nat :=
 Definition edge_matrix (fixed_F3 : bool) (big : Q) (k : nat) (cands : list cand) : matrix :=
   cost_matrix fixed_F3 big (edge_cands k cands) (edge_srcs k cands) (edge_dsts k cands).
 
-(* the pairs kept after the assignment: all of them (code as it is), or those
-   that did not land on a NaN entry (repaired code) *)
+(* the pairs kept after the assignment: all of them (pinned tree, before f3ef4e3),
+   or those that did not land on a NaN entry (current tree) *)
 Definition kept_pairs (fixed_F3 : bool) (k : nat) (cands : list cand) (a : asg) : asg :=
   if fixed_F3
   then filter (fun p => negb (is_nan_pair (edge_cands k cands) (edge_srcs k cands) (edge_dsts k cands) p)) a
@@ -242,8 +243,23 @@ Definition lsa_table (tbl : list (matrix * option asg)) (M : matrix) : option as
   | None => lsa_bf M
   end.
 
+(* the hypothesis of the optimality theorem for the repaired matching: the
+   placeholder cost `big` of a NaN entry exceeds min(n,m) * (hi - lo), where
+   lo <= 0 <= hi bracket every finite line score of the edge (so that one more
+   NaN-free pair always beats any difference of score totals) *)
+Definition finite_scores (cs : list cand) : list Q :=
+  flat_map (fun c => match c_score c with Some x => [x] | None => [] end) cs.
+Definition qmin0 (l : list Q) : Q := fold_right (fun x acc => if Qle_bool x acc then x else acc) 0%Q l.
+Definition qmax0 (l : list Q) : Q := fold_right (fun x acc => if Qle_bool acc x then x else acc) 0%Q l.
+Definition score_spread (k : nat) (cands : list cand) : Q :=
+  let fs := finite_scores (edge_cands k cands) in
+  (inject_Z (Z.of_nat (Nat.min (length (edge_srcs k cands)) (length (edge_dsts k cands))))
+   * (qmax0 fs - qmin0 fs))%Q.
+Definition big_dominatesb (big : Q) (k : nat) (cands : list cand) : bool :=
+  negb (Qle_bool big (score_spread k cands)).
+
 (* decidable feasibility of an assignment problem, and the selector of finding F3:
-   some edge of the sample has a cost matrix (code as it is: NaN -> +inf) without
+   some edge of the sample has a cost matrix (pinned tree: NaN -> +inf) without
    any all-finite one-to-one assignment of size min(n,m) *)
 Definition feasibleb (M : matrix) : bool := match lsa_bf M with Some _ => true | None => false end.
 Definition selector_F3 (n_edges : nat) (cands : list cand) : bool :=
@@ -314,13 +330,43 @@ Fixpoint assign_flat (l : list (edge * conn)) (a : assign) : assign * list fired
   end.
 Definition assign_all (ecs : econns) : assign * list fired := assign_flat (flatten ecs) [].
 
-(* min_instance_peaks *)
+(* min_instance_peaks.
+   A float threshold f becomes `int(f * n_nodes)`: the product is a binary64
+   multiplication (ONE rounding to nearest, ties to even, of the exact product of
+   the double f and the integer n_nodes), then truncation.  `b64_round` is that
+   rounding on exact rationals (53-bit significand, exponent unbounded: overflow
+   to inf — int() would raise — and NaN thresholds are outside the model; in the
+   subnormal range the true result and this one are both < 1, same truncation).
+   `MipFloat q`: q is the exact value of the double.  For 0.6 and 5 nodes the
+   exact product is 2.99999999999999988897769753748…, the double product is 3.0:
+   the code's threshold is 3, not 2 (review finding 1). *)
+Definition scale2 (a b s : Z) : Z * Z :=
+  if (0 <=? s)%Z then (a * 2 ^ s, b)%Z else (a, b * 2 ^ (- s))%Z.
+(* floor(log2 (a/b)) for a, b > 0 *)
+Definition ilog2_ratio (a b : Z) : Z :=
+  let e0 := (Z.log2 a - Z.log2 b)%Z in
+  let '(N, D) := scale2 a b (- e0) in
+  if (D <=? N)%Z then e0 else (e0 - 1)%Z.
+Definition b64_round (x : Q) : Q :=
+  let a := Qnum x in
+  let b := Zpos (Qden x) in
+  if (a <=? 0)%Z then x                                  (* only positive products are rounded here *)
+  else
+    let s := (52 - ilog2_ratio a b)%Z in                 (* x * 2^s lies in [2^52, 2^53) *)
+    let '(N, D) := scale2 a b s in
+    let m := (N / D)%Z in
+    let r := (N mod D)%Z in
+    let m' := if (D <? 2 * r)%Z || ((D =? 2 * r)%Z && Z.odd m) then (m + 1)%Z else m in
+    if (0 <=? s)%Z then Qmake m' (Z.to_pos (2 ^ s)) else inject_Z (m' * 2 ^ (- s)).
+
 Inductive mip := MipInt (z : Z) | MipFloat (q : Q).
+(* the float64 product min_instance_peaks * n_nodes of the code *)
+Definition mip_product (q : Q) (n_nodes : nat) : Q := b64_round (q * inject_Z (Z.of_nat n_nodes)).
 Definition threshold (m : mip) (n_nodes : nat) : option Z :=       (* None = no filtering *)
   match m with
   | MipInt z => if (0 <? z)%Z then Some z else None
   | MipFloat q => if Qle_bool q 0 then None
-                  else Some (Qfloor (q * inject_Z (Z.of_nat n_nodes)))   (* int(): truncation, q > 0 *)
+                  else Some (Qfloor (mip_product q n_nodes))       (* int(): truncation, q > 0 *)
   end.
 Definition count_inst (i : nat) (a : assign) : nat := length (filter (fun x => snd x =? i) a).
 Definition filter_small (thr : option Z) (a : assign) : assign :=
@@ -447,16 +493,18 @@ Inductive case :=
          (peaks : list (nat * payload)) (ms : list mtch)
 | CPredict (fixed_F3 : bool) (big : Q) (tbl : list (matrix * option asg))
            (n_nodes : nat) (edges : list edge) (m : mip) (mls : Q)
-           (peaks : list (nat * payload)) (scores : list score).
+           (peaks : list (nat * payload)) (scores : list score)
+| CThr (m : mip) (n_nodes : nat).
 
 Inductive outcome :=
 | OCand (l : list cand0)
 | OMatch (Ms : list matrix) (bf : list (option asg)) (tot : list cost) (nopt : list nat)
-         (r : res (list mtch))
+         (r : res (list mtch)) (dom : list bool)
 | OAssign (unfiltered : assign) (fs : list fired) (a : assign)
 | OGroup (r : res (list (list (option payload)) * list Q))
 | OPredict (sorted : option (list nat)) (Ms : list matrix) (ms : res (list mtch))
-           (r : res (list (list (option payload)) * list Q)) (sel : bool).
+           (r : res (list (list (option payload)) * list Q)) (sel : bool) (dom : list bool)
+| OThr (t : option Z) (prod : Q).
 
 Definition run (c : case) : outcome :=
   match c with
@@ -467,6 +515,7 @@ Definition run (c : case) : outcome :=
              (map (fun M => match best_assignment M with Some (_, t) => Some t | None => None end) Ms)
              (map n_optimal Ms)
              (match_sample lsa_bf fx big n cands)
+             (map (fun k => big_dominatesb big k cands) (seq 0 n))
   | CAssign ecs m n => let '(a, fs) := assign_all ecs in OAssign a fs (assign_connections ecs m n)
   | CMake pk ecs a => OGroup (make_instances pk ecs a)
   | CGroup n edges sorted m mls peaks ms => OGroup (group_sample n edges sorted m mls peaks ms)
@@ -477,6 +526,8 @@ Definition run (c : case) : outcome :=
                (match_sample (lsa_table tbl) fx big (length edges) cands)
                (predict_sample (lsa_table tbl) fx big n edges m mls peaks scores)
                (selector_F3 (length edges) cands)
+               (map (fun k => big_dominatesb big k cands) (seq 0 (length edges)))
+  | CThr m n => OThr (threshold m n) (match m with MipFloat q => mip_product q n | MipInt z => inject_Z z end)
   end.
 
 (* ------------------------------------------------------------------ rendering *)
@@ -509,13 +560,14 @@ Definition rasg : asg -> rdr := rlist (rpair rnat rnat).
 Definition routcome (o : outcome) : rdr := fun k =>
   match o with
   | OCand l => rlist (rtriple rnat rnat rnat) l k
-  | OMatch Ms bf tot nopt r =>
+  | OMatch Ms bf tot nopt r dom =>
       rstr "[" (rlist rmatrix Ms (rstr "," (rlist (ropt rasg) bf (rstr "," (rlist (ropt rQ) tot
-        (rstr "," (rlist rnat nopt (rstr "," (rres (rlist rmtch) r (rstr "]" k))))))))))
+        (rstr "," (rlist rnat nopt (rstr "," (rres (rlist rmtch) r (rstr "," (rlist rbool dom (rstr "]" k))))))))))))
   | OAssign a0 fs af =>
       rstr "[" (rassign a0 (rstr "," (rlist rfired fs (rstr "," (rassign af (rstr "]" k))))))
   | OGroup r => rgroup r k
-  | OPredict s Ms ms r sel =>
+  | OPredict s Ms ms r sel dom =>
       rstr "[" (ropt (rlist rnat) s (rstr "," (rlist rmatrix Ms (rstr "," (rres (rlist rmtch) ms
-        (rstr "," (rgroup r (rstr "," (rbool sel (rstr "]" k))))))))))
+        (rstr "," (rgroup r (rstr "," (rbool sel (rstr "," (rlist rbool dom (rstr "]" k))))))))))))
+  | OThr t p => rstr "[" (ropt rZ t (rstr "," (rQ p (rstr "]" k))))
   end.
